@@ -181,13 +181,14 @@ static void do_rt(int argc, char** a, int with_recon)
 	int input_modified = memcmp(copy, data, n * es) != 0;
 	if (bytes == NULL) { printf("st=null out=%zx n=%zx\n", outSize, n); free(data); free(copy); return; }
 	int lc = outSize >= 4 ? is_lossless_compressed_data(bytes, outSize) : -1;   /* -1 unwrapped, 0 zlib, 1 zstd */
+	printf("out=%zx lc=%d ", outSize, lc); fflush(R);   /* survives a crash of the decompressor (partial line) */
 	size_t dn = computeDataLength(dr[0], dr[1], dr[2], dr[3], dr[4]);
 	void* dec = SZ_decompress(ty, bytes, outSize, dr[0], dr[1], dr[2], dr[3], dr[4]);
-	if (dec == NULL) { printf("st=dec-null out=%zx lc=%d n=%zx\n", outSize, lc, n); free(bytes); free(data); free(copy); return; }
+	if (dec == NULL) { printf("st=dec-null n=%zx\n", n); free(bytes); free(data); free(copy); return; }
 	double mn, mx; double e = effective_bound(ty, copy, n, mode, absb, rel, &mn, &mx);
 	struct errstat st; err_stats(ty, copy, dec, n < dn ? n : dn, e, mn, mx, &st);
-	printf("st=ok out=%zx lc=%d n=%zx dn=%zx viol=%zx first=%zx maxerr=%" PRIx64 " e=%" PRIx64 " outside=%zx inmod=%d amax=%" PRIx64,
-	       outSize, lc, n, dn, st.viol, st.first == (size_t)-1 ? 0 : st.first, bits_of_dbl(st.maxerr), bits_of_dbl(e), st.outside, input_modified, bits_of_dbl(st.amax));
+	printf("st=ok n=%zx dn=%zx viol=%zx first=%zx maxerr=%" PRIx64 " e=%" PRIx64 " outside=%zx inmod=%d amax=%" PRIx64,
+	       n, dn, st.viol, st.first == (size_t)-1 ? 0 : st.first, bits_of_dbl(st.maxerr), bits_of_dbl(e), st.outside, input_modified, bits_of_dbl(st.amax));
 	if (with_recon) {
 		printf(" recon=");
 		if (n == 0) printf("_");
@@ -304,7 +305,87 @@ static void op_rw(int argc, char** a)
 	unlink(path); free(buf); free(l); if (r) free(r); if (file) free(file);
 }
 
+
+/* ---------- C14 ---------- */
+#include "szf.h"
+/* tr <type: 0 float,1 double,4 uint16,5 int16> <dims r5..r1> <values>: transposeData, detransposeData */
+static void op_tr(int argc, char** a)
+{
+	int ty = (int)hx(a[0]); size_t r[5]; parse_dims(a[1], r);
+	size_t n; char spec[1 << 20]; snprintf(spec, sizeof spec, "x:%s", a[2]);
+	void* data = make_data(spec, ty, &n); int es = elem_size(ty);
+	void* t = transposeData(data, ty, r[0], r[1], r[2], r[3], r[4]);
+	void* b = t ? detransposeData(t, ty, r[0], r[1], r[2], r[3], r[4]) : NULL;
+	printf("tr="); for (size_t i = 0; i < n && t; i++) { uint64_t v = 0; memcpy(&v, (char*)t + i * es, es); printf(i ? ",%" PRIx64 : "%" PRIx64, v); }
+	printf(" back="); for (size_t i = 0; i < n && b; i++) { uint64_t v = 0; memcpy(&v, (char*)b + i * es, es); printf(i ? ",%" PRIx64 : "%" PRIx64, v); }
+	printf("\n"); free(data); if (t) free(t); if (b) free(b);
+}
+
+static const char* mode_name(int m) { switch (m) { case ABS: return "ABS"; case REL: return "REL"; case ABS_AND_REL: return "ABS_AND_REL"; case ABS_OR_REL: return "ABS_OR_REL"; default: return "ABS"; } }
+
+/* ep <variant> <type> <dims> <mode> <abs bits> <rel bits> <cfg> <data>
+ * runs the canonical pair SZ_compress_args/SZ_decompress and one other public entry point on the same array and
+ * configuration; prints the status, the element count, whether the two reconstructions are bit-identical, and the
+ * number of elements outside the bound for each. */
+static void op_ep(int argc, char** a)
+{
+	int v = (int)hx(a[0]); int ty = (int)hx(a[1]); size_t r[5]; parse_dims(a[2], r);
+	int mode = (int)hx(a[3]); double absb = dbl_of_bits(a[4]), rel = dbl_of_bits(a[5]);
+	/* the configuration also carries the bound, for the entry points that take their defaults from it */
+	char cfg[4096]; snprintf(cfg, sizeof cfg, "%s%serrorBoundMode=%s;absErrBound=%.17g;relBoundRatio=%.17g", strcmp(a[6], "-") ? a[6] : "", strcmp(a[6], "-") ? ";" : "", mode_name(mode), absb, rel);
+	size_t n; void* data = make_data(a[7], ty, &n); int es = elem_size(ty);
+	int dim = computeDimension(r[0], r[1], r[2], r[3], r[4]);
+	if (v >= 20 && v <= 23 && ty == SZ_FLOAT && (v == 21 || v == 23)) { absb = (double)(float)absb; rel = (double)(float)rel; }
+	/* canonical */
+	if (init_from_cfg(cfg) != SZ_SCES) { printf("st=init-failed\n"); return; }
+	size_t cs = 0; unsigned char* cb = SZ_compress_args(ty, data, &cs, mode, absb, rel, 0, r[0], r[1], r[2], r[3], r[4]);
+	printf("out=%zx lc=%d ", cs, (cb && cs >= 4) ? is_lossless_compressed_data(cb, cs) : -1); fflush(R);
+	void* cdec = cb ? SZ_decompress(ty, cb, cs, r[0], r[1], r[2], r[3], r[4]) : NULL;
+	/* variant */
+	if (init_from_cfg(cfg) != SZ_SCES) { printf("st=init-failed\n"); return; }
+	size_t vs = 0; unsigned char* vb = NULL; void* vdec = NULL; int st1 = -99, st2 = -99; size_t cnt = n;
+	sz_params para; memcpy(&para, confparams_cpr, sizeof para); para.errorBoundMode = mode; para.absErrBound = absb; para.relBoundRatio = rel;
+	const char* names[] = {"SZ", "SZ2.0", "SZ2.1", "SZ1.4", "SZ_Transpose"};
+	if (v == 1) { vb = SZ_compress(ty, data, &vs, r[0], r[1], r[2], r[3], r[4]); vdec = vb ? SZ_decompress(ty, vb, vs, r[0], r[1], r[2], r[3], r[4]) : NULL; st1 = st2 = 0; }
+	else if (v == 2) {
+		vb = (unsigned char*)malloc(n * es + 4096 + n);
+		st1 = SZ_compress_args2(ty, data, vb, &vs, mode, absb, rel, 0, r[0], r[1], r[2], r[3], r[4]);
+		vdec = malloc(n * es + 8); cnt = SZ_decompress_args(ty, vb, vs, vdec, r[0], r[1], r[2], r[3], r[4]); st2 = 0;
+	}
+	else if (v >= 4 && v <= 8) {
+		vb = SZ_compress_customize(names[v - 4], NULL, ty, data, r[0], r[1], r[2], r[3], r[4], &vs, &st1);
+		vdec = vb ? SZ_decompress_customize(names[v - 4], NULL, ty, vb, vs, r[0], r[1], r[2], r[3], r[4], &st2) : NULL;
+	}
+	else if (v >= 9 && v <= 13) {
+		vb = SZ_compress_customize_threadsafe(names[v - 9], &para, ty, data, r[0], r[1], r[2], r[3], r[4], &vs, &st1);
+		vdec = vb ? SZ_decompress_customize_threadsafe(names[v - 9], &para, ty, vb, vs, r[0], r[1], r[2], r[3], r[4], &st2) : NULL;
+	}
+	else if (v >= 20 && v <= 23) {
+		/* Fortran-callable wrappers: 20 sz_compress_dN_T_, 21 sz_compress_dN_T_args_ ; decompression sz_decompress_dN_T_ */
+		vb = (unsigned char*)malloc(n * es + 4096 + n); vdec = malloc(n * es + 8); st1 = st2 = 0;
+		size_t r1 = r[4], r2 = r[3], r3 = r[2], r4 = r[1];
+		if (ty == SZ_FLOAT) {
+			float fa = (float)absb, fr = (float)rel; float* d = (float*)data;
+			if (v == 20) { if (dim == 1) sz_compress_d1_float_(d, vb, &vs, &r1); else if (dim == 2) sz_compress_d2_float_(d, vb, &vs, &r1, &r2); else if (dim == 3) sz_compress_d3_float_(d, vb, &vs, &r1, &r2, &r3); else sz_compress_d4_float_(d, vb, &vs, &r1, &r2, &r3, &r4); }
+			else { if (dim == 1) sz_compress_d1_float_args_(d, vb, &vs, &mode, &fa, &fr, &r1); else if (dim == 2) sz_compress_d2_float_args_(d, vb, &vs, &mode, &fa, &fr, &r1, &r2); else if (dim == 3) sz_compress_d3_float_args_(d, vb, &vs, &mode, &fa, &fr, &r1, &r2, &r3); else sz_compress_d4_float_args_(d, vb, &vs, &mode, &fa, &fr, &r1, &r2, &r3, &r4); }
+			if (dim == 1) sz_decompress_d1_float_(vb, &vs, (float*)vdec, &r1); else if (dim == 2) sz_decompress_d2_float_(vb, &vs, (float*)vdec, &r1, &r2); else if (dim == 3) sz_decompress_d3_float_(vb, &vs, (float*)vdec, &r1, &r2, &r3); else sz_decompress_d4_float_(vb, &vs, (float*)vdec, &r1, &r2, &r3, &r4);
+		} else {
+			double* d = (double*)data;
+			if (v == 20) { if (dim == 1) sz_compress_d1_double_(d, vb, &vs, &r1); else if (dim == 2) sz_compress_d2_double_(d, vb, &vs, &r1, &r2); else if (dim == 3) sz_compress_d3_double_(d, vb, &vs, &r1, &r2, &r3); else sz_compress_d4_double_(d, vb, &vs, &r1, &r2, &r3, &r4); }
+			else { if (dim == 1) sz_compress_d1_double_args_(d, vb, &vs, &mode, &absb, &rel, &r1); else if (dim == 2) sz_compress_d2_double_args_(d, vb, &vs, &mode, &absb, &rel, &r1, &r2); else if (dim == 3) sz_compress_d3_double_args_(d, vb, &vs, &mode, &absb, &rel, &r1, &r2, &r3); else sz_compress_d4_double_args_(d, vb, &vs, &mode, &absb, &rel, &r1, &r2, &r3, &r4); }
+			if (dim == 1) sz_decompress_d1_double_(vb, &vs, (double*)vdec, &r1); else if (dim == 2) sz_decompress_d2_double_(vb, &vs, (double*)vdec, &r1, &r2); else if (dim == 3) sz_decompress_d3_double_(vb, &vs, (double*)vdec, &r1, &r2, &r3); else sz_decompress_d4_double_(vb, &vs, (double*)vdec, &r1, &r2, &r3, &r4);
+		}
+	}
+	if (vb && vs >= 4) { printf("vout=%zx vlc=%d ", vs, is_lossless_compressed_data(vb, vs)); fflush(R); }
+	if (!cb || !cdec || !vb || !vdec) { printf("st=null c=%d v=%d st1=%d st2=%d\n", cb && cdec, vb && vdec, st1, st2); return; }
+	double mn, mx; double e = effective_bound(ty, data, n, mode, absb, rel, &mn, &mx);
+	struct errstat s1, s2; err_stats(ty, data, cdec, n, e, mn, mx, &s1); err_stats(ty, data, vdec, n, e, mn, mx, &s2);
+	printf("st=ok st1=%d st2=%d n=%zx cnt=%zx same=%d samebytes=%d cviol=%zx viol=%zx first=%zx maxerr=%" PRIx64 " e=%" PRIx64 " amax=%" PRIx64 "\n", st1, st2, n, cnt,
+	       !memcmp(cdec, vdec, n * es), cs == vs && !memcmp(cb, vb, cs), s1.viol, s2.viol, s2.first == (size_t)-1 ? 0 : s2.first, bits_of_dbl(s2.maxerr), bits_of_dbl(e), bits_of_dbl(s2.amax));
+	free(cb); free(cdec); free(vb); free(vdec); free(data);
+}
+
 struct op more_ops[] = {
-	{"rt", op_rt}, {"rtr", op_rtr}, {"fdim", op_fdim}, {"huff", op_huff}, {"rw", op_rw},
+	{"rt", op_rt}, {"rtr", op_rtr}, {"fdim", op_fdim}, {"huff", op_huff}, {"rw", op_rw}, {"tr", op_tr}, {"ep", op_ep},
 	{NULL, NULL}
 };
